@@ -631,7 +631,8 @@ package store
 //@   props C06
 //@   requires s.heightIndex != nil && s.heightSub != nil
 //@   modifies ghost:hcHas, ghost:icHas, AP_set, AP_val_Hdr, AT_u64, sub.count, MH_Int_Int_has, MH_Int_Int_val, ghost:arrived
-//@   before cancel [C06] cancel-after-drain: recvd("Store.writesDn") > 0 -- the writer has finished before its context is cancelled
+//@   before cancel [C06] cancel-after-drain: recvd("Store.writesDn") > 0 || ctxDone(ctx) -- the writer has finished before its context is cancelled (or the caller stopped waiting for it: Stop then fails)
+//@   ensures [C06] clean-stop-drained: result == nil ==> recvd("Store.writesDn") > 0
 //@   ensures [C06] signal-queued: result == nil ==> sent("Store.writes") == old(sent("Store.writes")) + 1
 
 // ---- store_recover.go (C06): manual recovery keeps memory and disk pointers in step
